@@ -223,6 +223,8 @@ class SmtDomain:
         mod = hi - lo + 1
         if self.is_conc(a):
             return (a - lo) % mod + lo
+        if lo == 0:
+            return "(mod %s %s)" % (a, _q(mod))
         return "(+ (mod (- %s %s) %s) %s)" % (a, _q(lo), _q(mod), _q(lo))
 
     def cmp(self, op, a, b, real=False):
@@ -492,7 +494,12 @@ class Exec:
             elif how == "FloatToInt":
                 val = V("int", tgt, d.float_to_int(a.t, a.ty, tgt))
             else:
-                val = V("int", tgt, d.wrap(a.t, tgt))
+                slo, shi = int_range(a.ty)
+                tlo, thi = int_range(tgt)
+                if tlo <= slo and shi <= thi:
+                    val = V("int", tgt, a.t)   # widening: value preserved
+                else:
+                    val = V("int", tgt, d.wrap(a.t, tgt))
         elif rhs.startswith("&"):
             mm = re.fullmatch(r"&(?:mut )?(_\d+)", rhs)
             if not mm:
